@@ -53,9 +53,16 @@ func runC02(c *Ctx) {
 	c04HexTable(c, "C02")
 	pairs := [][2]string{{"ValidateHostnameLabel", "IsValidHostnameLabel"}, {"ValidateTLDLabel", "isValidTLDLabel"}, {"ValidateHostname", "IsValidHostname"}}
 	var samples []any
+	// the label-level twins are compared exactly: both are evaluated as Boolean
+	// functions of the label bytes and must equal the same grammar (c03exact.go)
+	exact := c03LabelsExact(c, "C02")
 	for _, pr := range pairs {
 		fa, fb := c.fn("netutil", pr[0]), c.fn("netutil", pr[1])
 		if fa == nil || fb == nil {
+			continue
+		}
+		if exact[pr[0]] && exact[pr[1]] {
+			c.check(true, "C02.twin-skeleton", fb, pr[1]+" ≍ "+pr[0], nil, "both decided exactly against the same grammar (C02.label-exact): equal as Boolean functions of the label bytes for the lengths evaluated")
 			continue
 		}
 		b := &skel.Builder{Pkg: sp, Family: c02Family}
@@ -577,6 +584,7 @@ func c02PortSplit(c *Ctx) {
 		}
 	}
 	if f := c.fn("netutil", "isUint16"); f != nil {
+		c02PortNumberExact(c)
 		c02Uint16(c, f)
 	}
 }
